@@ -74,6 +74,12 @@ def _ast_norm(src):
     return ast.dump(fn)
 
 
+# The harness side (value generation, the independent decoder of the monitors) must keep working when the source of the
+# quirk changes -- the translator (strict) is what reports the changed source as a broken obligation; the drivers switch
+# this on after the translation stage and then go by the DOCUMENTED quirk: a remainder of exactly 24 bytes is padded.
+LENIENT_QUIRKS = False
+
+
 def struct_quirk(ty):
     """None, or ("PAD", when_len, at, n) for the recognised deserialisation quirk"""
     import inspect
@@ -84,6 +90,8 @@ def struct_quirk(ty):
     if own == ["deserialize"] and ty.__name__ == "EmberKeyStruct":
         src = inspect.getsource(ty.__dict__["deserialize"].__func__)
         if _ast_norm("@classmethod\n" + __import__("textwrap").dedent(src).split("@classmethod\n", 1)[-1]) == _ast_norm(_KEYSTRUCT_DESERIALIZE):
+            return ("PAD", 24, 7, 12)
+        if LENIENT_QUIRKS:
             return ("PAD", 24, 7, 12)
     raise Unsupported(f"{ty.__name__}: overrides {own} of zigpy's Struct in a way the translator does not model")
 
@@ -432,7 +440,21 @@ def flat_decodes(items, data):
     first = None
     for i, it in enumerate(items):
         if it[0] == "PAD":
-            return None
+            # the documented quirk of the key structure (the last field of its two responses): the structure is complete,
+            # or exactly `when_len` bytes are left (a firmware that sends a 4-byte id in place of the 16-byte key)
+            _, when_len, _at, npad = it
+            rest_items = items[i + 1:]
+            size = 0
+            for r in rest_items:
+                if r[0] == "P" and r[1][0] in ("U", "S"):
+                    size += r[1][1]
+                elif r[0] == "FX" and all(q[0] in ("U", "S") for q in r[2]):
+                    size += r[1] * sum(q[1] for q in r[2])
+                else:
+                    return None
+            if size != when_len + npad:
+                return None
+            return len(data) >= size or len(data) == when_len
         if it[0] == "P":
             c = _dec_prim(it[1], data)
             if c is None:
